@@ -174,7 +174,7 @@ def run_family(fam, tier, seed):
                              stderr=subprocess.STDOUT, text=True)
         h.stdout.close()
         procs.append((h, d, hcmd))
-    res = {'cases': 0, 'nontrivial': 0, 'mismatch': 0, 'oracle': 0, 'known': 0, 'MISMATCH': [], 'ORACLE': [],
+    res = {'cases': 0, 'nontrivial': 0, 'mismatch': 0, 'oracle': 0, 'known': 0, 'fidelity': 0, 'MISMATCH': [], 'ORACLE': [],
            'KNOWN': [], 'SAMPLE': [], 'errors': [], 'cmds': []}
     for h, d, hcmd in procs:
         out, _ = d.communicate()
